@@ -459,6 +459,28 @@ class CallMixin:
             self.oblige(st, what, z3.Not(self.is_none(v, st)), clause=f"{what.rsplit(':', 1)[-1]} is not None", site=line)
             st.assume(z3.Not(self.is_none(v, st)))
             return Val(ty, v.t) if is_reflike(ty) else Val(ty, opt_of(v.ty).val(v.t))
+        if v.ty == JV:
+            # a JSON-like value where the contract declares a type: being of that type is part of the precondition
+            inner = ty.args[0] if ty.name == "Opt" else ty
+            isnull = v.t == jv_null
+            st.assume(z3.And(z3.Not(jv_is_str(jv_null)), z3.Not(jv_is_list(jv_null)), z3.Not(jv_is_dict(jv_null))))
+            if inner == STR:
+                ok = jv_is_str(v.t)
+                val = Val(STR, jv_str(v.t))
+            elif inner.name in ("Dict", "List"):
+                ok = jv_is_dict(v.t) if inner.name == "Dict" else jv_is_list(v.t)
+                val = Val(inner, z3.Function("jv_to_Int", JVSort, I)(v.t))
+            else:
+                ok = None
+            if ok is not None:
+                goal = z3.Or(isnull, ok) if ty.name == "Opt" else ok
+                self.oblige(st, what, goal, clause=f"{what.rsplit(':', 1)[-1]} is a {inner}" + (" or None" if ty.name == "Opt" else ""), site=line)
+                st.assume(goal)
+                if ty.name != "Opt":
+                    return val
+                if is_reflike(inner):
+                    return Val(ty, z3.If(isnull, z3.IntVal(0), val.t))
+                return Val(ty, z3.If(isnull, opt_of(ty).none, opt_of(ty).some(val.t)))
         if ty.name == "Tuple" and v.ty.name == "Tuple" and len(ty.args) == len(v.ty.args):
             return Val(ty, [self.coerce_val(x, a, st, what, line) for x, a in zip(v.t, ty.args)])
         if ty.name == "Tuple":
